@@ -59,8 +59,11 @@ func (p *searchPath) String() string {
 }
 
 type param struct {
-	name    string
-	namePos token.LnColPos
+	name string
+	// rootPos is the use call of the script being linked (name) through which
+	// the chain explored at the moment leaves that script; a circular
+	// dependency is reported there.
+	rootPos token.LnColPos
 
 	allNg    map[string]*runtime.Script
 	retMap   map[string]*runtime.Script
@@ -74,7 +77,7 @@ func EngineCallRefLinkAndCheck(allNg map[string]*runtime.Script, allErrNg map[st
 	for name, proc := range allNg {
 		p := &param{
 			name:     name,
-			namePos:  token.InvalidLnColPos,
+			rootPos:  token.InvalidLnColPos,
 			allNg:    allNg,
 			allErrNg: allErrNg,
 			retMap:   retMap,
@@ -93,7 +96,7 @@ func EngineCallRefLinkAndCheck(allNg map[string]*runtime.Script, allErrNg map[st
 
 func dfs(name string, procc *runtime.Script, sPath *searchPath, p *param) error {
 	if err := sPath.Push(name); err != nil {
-		return errchain.NewErr(p.name, p.namePos, err.Error())
+		return errchain.NewErr(p.name, p.rootPos, err.Error())
 	}
 
 	if _, ok := p.retMap[name]; ok {
@@ -105,26 +108,31 @@ func dfs(name string, procc *runtime.Script, sPath *searchPath, p *param) error 
 
 	for _, expr := range procc.CallRef {
 		cName, err := getParamRefScript(expr)
-		p.namePos = expr.NamePos
 		if err != nil {
 			return err
+		}
+		// the call site is local to this frame: the recursion below visits
+		// other scripts and must not change what is appended for this one
+		callPos := expr.NamePos
+		if name == p.name {
+			p.rootPos = callPos
 		}
 
 		if cNg, ok := p.allNg[cName]; !ok {
 			if err, ok := p.allErrNg[cName]; ok {
 				if e, ok := err.(*errchain.PlError); ok {
 					return e.Copy().ChainAppend(
-						procc.Name, p.namePos)
+						procc.Name, callPos)
 				}
 				return err
 			}
-			return errchain.NewErr(procc.Name, p.namePos,
+			return errchain.NewErr(procc.Name, callPos,
 				fmt.Sprintf("script %s not found", cName))
 		} else {
 			expr.PrivateData = cNg
 			if err := dfs(cName, cNg, sPath, p); err != nil {
 				if e, ok := err.(*errchain.PlError); ok {
-					return e.Copy().ChainAppend(procc.Name, p.namePos)
+					return e.Copy().ChainAppend(procc.Name, callPos)
 				}
 				return err
 			}
